@@ -34,12 +34,18 @@ def scope(tier, seed):
                 'N': 'all 148 labelled K(<=2) x %d formulas with a 3-ary and/or' % len(spaces.nary_ctl()),
                 'G4': 'all 50625 total graphs on 4 states x {p everywhere, p missing in one state} x '
                       '{EG p, AF not p, E[p U not p], A[not p R p]}',
+                'NEG': 'all 148 labelled K(<=2) x %d negation-rich formulas (operators over literals, outer '
+                       'negation, QX not QX towers)' % len(spaces.negated_ctl()),
+                'EDIT': 'histories query / edit the same object (every single added edge or toggled label) / '
+                        'query on the 82 representatives x 46 formulas',
                 'B': '3836 iso-representatives of K(3) x 144 formulas size<=1',
                 'C': 'size-3 block %d of %d x 82 representatives of K(<=2)' % (seed % NB3, NB3)}
     return {'A': 'all 148 labelled K(<=2) x all 8964 formulas of size<=2',
             'N': 'all 148 labelled K(<=2) x %d formulas with a 3-ary and/or' % len(spaces.nary_ctl()),
             'G4': 'all 50625 total graphs on 4 states x {p everywhere, p missing in one state} x '
                   '{EG p, AF not p, E[p U not p], A[not p R p]}',
+            'NEG': 'all 148 labelled K(<=2) x %d negation-rich formulas' % len(spaces.negated_ctl()),
+            'EDIT': 'query / edit / query histories on the 82 representatives x 46 formulas',
             'B': 'all 21952 labelled K(3) x 144 formulas size<=1',
             'C': 'size-3 blocks {%d..%d} mod %d x 82 representatives of K(<=2)'
                  % (seed % NB3, (seed + 7) % NB3, NB3),
@@ -55,6 +61,10 @@ def plan(tier, seed):
         sh.append(['N', lo, hi])
     for lo, hi in chunks(50625, 1024):
         sh.append(['G4', lo, hi])
+    for lo, hi in chunks(148, 4):
+        sh.append(['NEG', lo, hi])
+    for lo, hi in chunks(82, 2):
+        sh.append(['EDIT', lo, hi])
     if tier == 'quick':
         for lo, hi in chunks(3836, 48):
             sh.append(['Brep', lo, hi])
@@ -140,6 +150,39 @@ def run_shard(shard, tier, seed, acc):
                 for f in full:
                     check_one(k, Kl, f, acc)
         return
+    if kind == 'NEG':
+        forms = spaces.negated_ctl()
+        for k in _ks2()[shard[1]:shard[2]]:
+            Kl = lib.to_kripke(k)
+            for j, f in enumerate(forms):
+                check_one(k, Kl, f, acc, audit=(j % 16 == 0))
+        return
+    if kind == 'EDIT':
+        # histories: query, edit the SAME structure object through its public API, query again
+        reps = (spaces.kripke_reps(1) + spaces.kripke_reps(2))[shard[1]:shard[2]]
+        forms = _forms_le(1, spaces.LEAVES2)
+        for k in reps:
+            for edit, k2 in spaces.k_edits(k):
+                Kl = lib.to_kripke(k)
+                for f in forms:
+                    check_one(k, Kl, f, acc)
+                r = call(spaces.apply_edit, Kl, edit)
+                if r[0] != 'ok':
+                    acc.harness_error('edit %r failed: %r' % (edit, r[1:]))
+                    continue
+                acc.add('edit_histories')
+                for f in forms:
+                    ref = ctl_sat(k2, f)
+                    res = as_state_set(call(lib.CTL.modelcheck, Kl, lib.build(f, lib.CTL)))
+                    acc.ev(1, 1 if 0 < len(ref) < k.n else 0)
+                    if res != ('set', sorted(ref)):
+                        acc.violation('wrong-answer-after-edit',
+                                      kcase(k, f, edit=list(edit), history='all size<=1 formulas, edit, query'),
+                                      sorted(ref), res)
+                        break
+        acc.sample({'history': ['modelcheck(K, f)', 'K.add_edge(0, 1)', 'modelcheck(K, f)'],
+                    'k': reps[0].to_json()})
+        return
     if kind == 'N':
         forms = spaces.nary_ctl()
         for k in _ks2()[shard[1]:shard[2]]:
@@ -219,6 +262,19 @@ def replay(art):
                 call(lib.CTL.modelcheck, Kl, lib.build(f, lib.CTL))
         return {'violates': lib.snapshot_kripke(Kl) != snap}
     f = spaces.from_jsonable(case['f'])
+    if art['kind'] == 'wrong-answer-after-edit':
+        edit = tuple(case['edit'])
+        k2 = [x for e, x in spaces.k_edits(k) if list(e) == list(edit)][0]
+        for g in _forms_le(1, spaces.LEAVES2):
+            call(lib.CTL.modelcheck, Kl, lib.build(g, lib.CTL))
+        spaces.apply_edit(Kl, edit)
+        bad = []
+        for g in _forms_le(1, spaces.LEAVES2):
+            ref = sorted(ctl_sat(k2, g))
+            res = as_state_set(call(lib.CTL.modelcheck, Kl, lib.build(g, lib.CTL)))
+            if res != ('set', ref):
+                bad.append([spaces.fstr(g), ref, res])
+        return {'violates': bool(bad), 'wrong': bad[:3]}
     ref = sorted(ctl_sat(k, f))
     res = as_state_set(call(lib.CTL.modelcheck, Kl, lib.build(f, lib.CTL)))
     res2 = as_state_set(call(lib.CTL.modelcheck, Kl, lib.build(f, lib.CTL)))
